@@ -497,6 +497,10 @@ func (c httpCase) run(r *rig.Rig) *got {
 			return nil
 		}
 	}
+	if c.fw != nil && (c.kind == "authzerr" || c.kind == "createfault") {
+		// history part: this is the response-producing request
+		return observe(doOn(c.fw, r.H[c.router], r.Core, rig.Req("GET", "/authorize", q, nil)))
+	}
 	id, resp := r.Authorize(c.router, q)
 	if c.kind == "authzerr" || c.kind == "createfault" {
 		return observe(resp)
@@ -573,9 +577,9 @@ func httpWant(c httpCase, r, refRig *rig.Rig) *want {
 		// the request was never stored: no session state exists yet
 		_, code := causeOf(c.cause, c.s)
 		add("error", code)
-		if c.cause == "oidc-error" {
+		if c.cause != "plain-error" {
 			// for a plain error the library substitutes a fixed text of its own
-			add("error_description", tag("ed", c.s))
+			add("error_description", descOf(c.cause, c.s))
 		}
 		add("state", c.s)
 	case "authzerr":
@@ -603,7 +607,7 @@ func httpWant(c httpCase, r, refRig *rig.Rig) *want {
 
 func TestCheck(t *testing.T) {
 	c := engine.Start(t, "C11")
-	c.SetRule("E1: (direct) full product strings × redirect-URI shapes × response_mode × response_type × {success,error} × session_state on op.AuthResponseURL / op.AuthResponseFormPost; (handler) the same product on op.AuthResponse / op.AuthRequestError / op.TryErrorRedirect with a crafted stored request; (http) full product router × URI × mode × type × {success, 4 error paths} crossed with ≤1 deviation in {string, session_state, storage error kind}; every output decoded like the receiver (query / raw fragment / HTML tokeniser) and compared byte for byte; (history) every sequence of 2 (thorough 3) response-producing calls over 18 calls × 3 value triples × writer fault at body byte {0,1,middle,len-1,never} for every earlier call, and (history-allpos) every byte position of an interrupted AuthResponseFormPost followed by a second response: the LAST response must satisfy the decoding oracle and decode exactly as the same call does in a fault-free history; distinct = (oracle rule, observed outcome class)")
+	c.SetRule("E1: (direct) full product strings × redirect-URI shapes × response_mode × response_type × {success,error} × session_state on op.AuthResponseURL / op.AuthResponseFormPost; (handler) the same product on op.AuthResponse / op.AuthRequestError / op.TryErrorRedirect with a crafted stored request; (http) full product router × URI × mode × type × {success, 4 error paths} crossed with ≤1 deviation in {string, session_state, storage error kind}; every output decoded like the receiver (query / raw fragment / HTML tokeniser) and compared byte for byte; (history) every sequence of 2 (thorough also 3, values: at most one call deviating) response-producing calls over 21 calls × 3 value triples × writer fault at body byte {0,1,middle,len-1,never} for every earlier call, and (history-allpos) every byte position of an interrupted AuthResponseFormPost followed by a second response: the LAST response must satisfy the decoding oracle and decode exactly as the same call does in a fault-free history; distinct = (oracle rule, observed outcome class)")
 	c.Assume("net/url query parsing and golang.org/x/net/html tokenisation behave like a user agent's",
 		"redirect URI that already has a fragment, fragment mode: the old fragment may be replaced (DESIGN §1.6)",
 		"scope / token_type / expires_in: integrity when present, absence is no violation (DESIGN §1.6)",
